@@ -116,6 +116,9 @@ def run_check(prop: str, tier: str, replay: str | None = None) -> int:
     if hasattr(mod, 'finalize') and not replay:
         for reason in mod.finalize(agg, tier) or []:
             agg['inconclusive'].append(reason)
+    if getattr(mod, 'BUILDER_DEFAULTS', False) and not replay and \
+            not agg['counters'].get('monitor.builder_default_comparisons'):
+        agg['inconclusive'].append('builder-default monitor compared no call')
 
     # ---- classify violations against the committed known-findings file
     open_findings = known.load_open()
